@@ -669,6 +669,10 @@ func Fail(kind, detail string) {
 	s.abort(&Outcome{Kind: kind, Detail: detail, Task: s.cur.Name, Tag: s.cur.Tag})
 }
 
+// IsKill reports whether a recovered panic value is the simulator's unwinding
+// sentinel (which must be re-panicked, never swallowed).
+func IsKill(v interface{}) bool { return v == killSentinel }
+
 type unsupportedT string
 
 // Unsupported is called by traps the rewriter inserts into functions that use
